@@ -9,6 +9,7 @@ For every seeded change: (1) demo.py must pass on the clean copy and fail on the
 patched copy; (2) the quick check of the property it targets (or of the listed
 properties) should exit 1 (CAUGHT)."""
 import argparse
+import re
 import json
 import os
 import shutil
@@ -60,7 +61,10 @@ def one(job):
         rc_clean = run_demo(clean, demo) if os.path.exists(demo) else None
     finally:
         shutil.rmtree(clean, ignore_errors=True)
-    d = scratch(patch)
+    try:
+        d = scratch(patch)
+    except RuntimeError as e:
+        return [f"{name}: ERROR {e}"[:300]]
     try:
         rc_patched = run_demo(d, demo) if os.path.exists(demo) else None
         out.append(f"{name}: demo clean rc={rc_clean} patched rc={rc_patched}" + ("  [demo OK]" if rc_clean == 0 and rc_patched not in (0, None) else "  [demo NOT discriminating]"))
@@ -88,7 +92,7 @@ def main():
         sd = os.path.join(a.dir, name)
         if not os.path.isdir(sd) or not os.path.exists(os.path.join(sd, "patch.diff")):
             continue
-        if a.only and a.only not in name:
+        if a.only and not re.search(a.only, name):
             continue
         meta = {}
         if os.path.exists(os.path.join(sd, "meta.json")):
